@@ -37,6 +37,9 @@ CONFIGS += [d + (eol, v, src) for src in ('own', 'clash_rep', 'clash_sub') for d
             if not (src == 'own' and d[:3] == STD)]
 
 
+UNIQ = (('gs', '6'), ('st', '23'))        # 'control number not unique': what the ('GS','dup') / ('ST','dup') events earn, and nothing else does
+
+
 def src_delims(cfg):
     """-> (seg, ele, sub, rep) the caller's Segment objects are built with"""
     seg, ele, sub, rep, eol, v, src = cfg
@@ -81,8 +84,12 @@ class Model(object):
             return [('ISA',)] + ([('ISA', 'other')] if self.n_isa else [])
         if top == 'ISA':
             evs.append(('GS',))
+            if any(x[0] == 'GS' for x in self.out[self.stack[-1][2]:]):
+                evs.append(('GS', 'dup'))         # the control number of the previous group again: an error for a reader, but still a group
         if top == 'GS':
             evs.append(('ST',))
+            if any(x[0] == 'ST' for x in self.out[self.stack[-1][2]:]):
+                evs.append(('ST', 'dup'))         # the control number of the previous set again: still a set of this group
         evs += [('X',), ('E',), ('T',), ('LS',), ('LE',)]          # T: free text with a character that is a separator elsewhere; LS / LE (bounded loop markers) are ordinary body segments for the writer
         if top == 'ST':
             evs.append(('HL', 'root'))
@@ -138,6 +145,8 @@ class Model(object):
         elif k == 'GS':
             assert self.stack[-1][0] == 'ISA'
             n = sum(1 for s in self.out[self.stack[-1][2]:] if s[0] == 'GS') + 1
+            if len(ev) > 1:
+                n -= 1
             cid = '%d' % (self.n_isa * 100 + n)
             vers = '004010X098A1' if icvn == '00401' else '005010X222A1'
             parts = ['GS', 'HC', 'S', 'R', '20040608', '1333', cid, 'X', vers]
@@ -147,6 +156,8 @@ class Model(object):
         elif k == 'ST':
             assert self.stack[-1][0] == 'GS'
             n = sum(1 for s in self.out[self.stack[-1][2]:] if s[0] == 'ST') + 1
+            if len(ev) > 1:
+                n -= 1
             cid = '%s%02d' % (self.stack[-1][1], n)
             self.inputs.append(sele.join(['ST', '837', cid]))
             self.stack.append(('ST', cid, len(self.out)))
@@ -322,13 +333,15 @@ def reread(text, cfg, want):
     if len(per) != len(want):
         bad.append(('reread|segment count', 'reader yields %d segments, %d expected' % (len(per), len(want))))
         return bad
+    # HL numbering and the uniqueness of the control numbers are the caller's business: the reader must say exactly what the
+    # C04 recount says (nothing, unless the history repeats a control number: then the 'not unique' code and only that)
+    exp, expend, loose = ref.recount(flat(want, sub))
     env = sorted(set(e for p in per for e in p if e[0] in ENVK))
-    if env:
-        bad.append(('reread|envelope error ' + ','.join('%s/%s' % e for e in env), 'reader reports %r' % (env,)))
+    wenv = sorted(set(e for p in exp for e in p if e[0] in ENVK))
+    if env != wenv:
+        bad.append(('reread|envelope error ' + ','.join('%s/%s' % e for e in env), 'reader reports %r, the recount %r' % (env, wenv)))
     if end:
         bad.append(('reread|cleanup reports ' + ','.join('%s/%s' % e for e in end), 'cleanup reports %r' % (end,)))
-    # HL numbering is the caller's business: the reader must say exactly what the C04 recount says
-    exp, expend, loose = ref.recount(flat(want, sub))
     for i, p in enumerate(per):
         if i in loose:
             continue
@@ -354,7 +367,7 @@ def step(hist):
     fw = flat(want_closed, sub)
     assert ref.nests(fw), fw
     exp, expend, loose = ref.recount(fw)
-    assert not expend and not any(e[0] in ENVK for p in exp for e in p), (fw, exp, expend)
+    assert not expend and not any(e[0] in ENVK and e not in UNIQ for p in exp for e in p), (fw, exp, expend)
 
     viols = []
     buf = io.StringIO()
